@@ -134,7 +134,7 @@ def threequarters(binner: Binner, binsize: float, items: List[any])->BinsArray:
             # Initialize a bin with either a single biggest item, or two biggest medium items:
             biggest_item = big_items[0:1]              # It will be empty if X is empty
             biggest_medium_items = medium_items[0:2]   # It will be empty if Y is empty
-            if sum(biggest_item) >= sum(biggest_medium_items):
+            if sum(map(binner.valueof, biggest_item)) >= sum(map(binner.valueof, biggest_medium_items)):
                 for item in biggest_item:
                     binner.add_item_to_bin(bins, item, -1)
                     del big_items[0]
